@@ -33,6 +33,8 @@ def build():
     if not os.path.exists(lock):
         import shutil; shutil.copy(os.path.join(REPO, "Cargo.lock"), lock)
     env = env_offline(); env["CARGO_TARGET_DIR"] = STARGET
+    # the cfg-guarded verification hook of /repo (CAM16 internals, MANIFEST.hooks) is enabled for this crate only
+    env["RUSTFLAGS"] = "--cfg palette_verif"
     with BuildLock("sym"):
         return run(["cargo", "build", "--offline", "--release"], cwd=SDIR, env=env, timeout=1800)
 
@@ -301,6 +303,10 @@ class Ctx:
                     for i2, (k2, ids2, args2) in sorted(apps.items()):
                         if k2 != "pow" or i2 <= i: continue
                         ax.append("(=> (and (= %s %s) (= %s %s)) (= %s u%d))" % (b, args2[0], ex, args2[1], u, i2))
+                    # x^(2e) = (x^e)^2 between occurrences with the same base (x >= 0)
+                    for i2, (k2, ids2, args2) in sorted(apps.items()):
+                        if k2 != "pow" or i2 == i or self.const_value(ids2[1]) is not None: continue
+                        ax.append("(=> (and (>= %s 0.0) (= %s %s) (= %s (* 2.0 %s))) (= %s (* u%d u%d)))" % (b, b, args2[0], ex, args2[1], u, i2, i2))
                 if e is not None:
                     if e > 0:
                         ax.append("(=> (= %s 0.0) (= %s 0.0))" % (b, u))
@@ -679,6 +685,7 @@ def lattice_witness(rec, prog, ensure_name, cap=20000):
 
 
 CONFIRMED_FAILS = {}
+NOT_DISCHARGED = {}
 
 
 def check_path(prop, prog, meta, rec, timeout):
@@ -686,6 +693,8 @@ def check_path(prop, prog, meta, rec, timeout):
     res = _check_path(prop, prog, meta, rec, timeout)
     n = sum(1 for o in res[0] if o.status == FAILED and not o.no_input)
     if n: CONFIRMED_FAILS[prog] = CONFIRMED_FAILS.get(prog, 0) + n
+    u = sum(1 for o in res[0] if o.status != DISCHARGED)
+    if u: NOT_DISCHARGED[prog] = NOT_DISCHARGED.get(prog, 0) + u
     return res
 
 
@@ -712,9 +721,9 @@ def _check_path(prop, prog, meta, rec, timeout):
     # budget: once a program has three obligations that failed WITH an input replayed on the real code, its remaining
     # paths are not sent to the solvers (the check already exits 1; hundreds of paths of a broken function would each
     # cost the full solver timeout). They are reported undecided, never discharged.
-    if CONFIRMED_FAILS.get(prog, 0) >= 3:
+    if CONFIRMED_FAILS.get(prog, 0) >= 3 or NOT_DISCHARGED.get(prog, 0) >= 24:
         o = Ob("%s.skipped" % base, "smt", "complete", meta["func"], meta["desc"])
-        o.detail = "not attempted: three obligations of this program already failed with a replayed counterexample"
+        o.detail = "not attempted: three obligations of this program already failed with a replayed counterexample, or 24 were left undischarged (on the unchanged tree every obligation discharges, so this only bounds the cost of a run against a changed tree)"
         return [o], {"feasible": None, "path": base}
     # translate everything first (collects the uninterpreted applications)
     for r in roots: ctx.t(r)
